@@ -66,7 +66,7 @@ FAULTS_BY_KIND = {
     "newAccount": ["ok:no_location"], "newOrder": ["ok:no_location"],
     "authz": ["obj:status=invalid", "obj:status=deactivated", "obj:status=expired", "obj:status=revoked", "obj:status=weird"],
     "order": ["obj:status=invalid", "obj:status=processing", "obj:nocert", "obj:status=weird"],
-    "cert": ["ok:nonpem", "ok:truncated", "ok:emptybody"],
+    "cert": ["ok:nonpem", "ok:truncated", "ok:emptybody", "ok:blankbody", "ok:pem_then_garbage", "ok:other_key"],
     "directory": ["ok:malformed_json", "ok:missing_fields"],
     "newNonce": ["ok:no_nonce", "ok:bad_nonce_header"],
 }
@@ -111,6 +111,9 @@ def single_fault_specs(tag, cert, positions, tier, seed, attempts=1, pre_modes=(
                         if (n + seed) % quick_stride == 0:
                             reps.append(1 if not acme else (1 + (n % 3)))
                         if acme and dense_here and kind in dense_kinds and 1 not in reps:
+                            reps.append(1)
+                        # the few faults that exist for this kind of request only (object statuses, certificate bodies): never sampled away
+                        if kind in dense_kinds and f in FAULTS_BY_KIND.get(kind, ()) and not reps:
                             reps.append(1)
                     for rep in reps:
                         sp = dict(tag="%s/s%04d" % (tag, len(specs)), certs=[c], attempts=attempts,
